@@ -3,7 +3,9 @@ package props
 import (
 	"image/color"
 	"os"
+	"runtime"
 	"strings"
+	"sync"
 
 	"github.com/mandykoh/prism/linear"
 
@@ -93,3 +95,32 @@ func toString(p any) string {
 	}
 	return "panic"
 }
+
+// firstUseBurst runs f(g) on n goroutines released together; with stagger the goroutines arrive a
+// little after one another (so that some reach a lazily initialised facility while another
+// goroutine is still initialising it, instead of all queueing on the same sync.Once).
+func firstUseBurst(n int, stagger bool, f func(g int)) {
+	var wg sync.WaitGroup
+	start := make(chan struct{})
+	for g := 0; g < n; g++ {
+		wg.Add(1)
+		go func(g int) {
+			defer wg.Done()
+			<-start
+			if stagger {
+				for spin := 0; spin < g*1500; spin++ {
+					runtime.Gosched()
+				}
+			}
+			f(g)
+		}(g)
+	}
+	close(start)
+	wg.Wait()
+}
+
+// burstVariants are the fresh-process children that exist only to put the very first use of the
+// library's lazily built state under contention, many times, with different degrees of parallelism.
+var burstVariants = []string{"burst@2", "burst+stagger@2", "burst@4", "burst+stagger@4", "burst@16", "burst+stagger@16", "burst+stagger@3", "burst@8"}
+
+func isBurst(variant string) bool { return strings.HasPrefix(variant, "burst") }
